@@ -356,20 +356,23 @@ namespace igris
             m_size = n;
         }
 
-        void erase(iterator newend)
+        iterator erase(iterator pos)
         {
-            m_size = newend - m_data;
+            return erase(pos, pos + 1);
         }
 
-        void erase(iterator first, iterator last)
+        iterator erase(iterator first, iterator last)
         {
             size_t sz = last - first;
-            for (size_t i = 0; i < sz; ++i)
+            // close the gap by move-assigning onto live elements, then
+            // destroy what is left over at the end
+            iterator new_end = std::move(last, end(), first);
+            for (iterator it = new_end; it != end(); ++it)
             {
-                igris::destructor(first + i);
+                igris::destructor(it);
             }
-            std::move(last, end(), first);
             m_size -= sz;
+            return first;
         }
 
         T &at(size_t num)
